@@ -327,7 +327,7 @@ theorem forged_v1_witness :
     makeKeys kz true (constSfx "-AAAAAQ") (xs 39 ++ "-AAAAAQ".toList) = [v1Key kz (constSfx "-AAAAAQ") (xs 50)] := by
   decide
 
-/-! ### The storages' own names (finding F6g) and ids outside the alphabet (F6i) -/
+/-! ### The storages' own names (finding F6g) and ids outside the alphabet (F6i, fixed) -/
 
 /-- **F6g (a)** `hm` of the id-level isolation theorems is necessary: under a custom prefix, storing
     the record of `fn` writes the marker `<prefix>/kopf-managed: yes`; a handler with the id
@@ -386,12 +386,22 @@ example : let sfx : Str → Str := fun s => if s = "a/".toList ++ xs 68 then "-A
     makeKeys kz true sfx ("a.".toList ++ xs 68) = [v2Key kz sfx ("a.".toList ++ xs 68), v1Key kz sfx ("a/".toList ++ xs 68)] := by
   decide
 
-/-- **F6i** `IdOk` (the property's alphabet) is necessary: kopf's own id of a lambda contains `:`,
-    which the safe key keeps; the name is invalid for every hash. -/
-theorem lambda_id_witness (sfx : Str → Str) :
-    ¬ IdOk "lambda:/a.py:1".toList ∧ EdgeOk "lambda:/a.py:1".toList ∧
-    validQualified (v2Key kz sfx "lambda:/a.py:1".toList) = false := by
-  have e : v2Key kz sfx "lambda:/a.py:1".toList = "kopf.zalando.org/lambda:.a.py:1".toList := by
+/-- **F6i fixed** (kopf f95b306): kopf's own id of a lambda, `lambda:<path>:<line>`, is inside `IdOk`
+    now, its `:` becomes `_`, and the name is valid for every hash (`valid_names_partial` covers all
+    such ids; this is the former witness turned regression, corpus `F6i.json`). -/
+theorem lambda_id_regression (sfx : Str → Str) :
+    IdOk "lambda:/a.py:1".toList ∧ EdgeOk "lambda:/a.py:1".toList ∧
+    v2Key kz sfx "lambda:/a.py:1".toList = "kopf.zalando.org/lambda_.a.py_1".toList ∧
+    validQualified (v2Key kz sfx "lambda:/a.py:1".toList) = true := by
+  have e : v2Key kz sfx "lambda:/a.py:1".toList = "kopf.zalando.org/lambda_.a.py_1".toList := by
+    simp [v2Key]; decide
+  refine ⟨by decide, by decide, e, ?_⟩
+  rw [e]; decide
+
+/-- `IdOk` is still necessary: a character outside the alphabet (here a space) passes into the name -/
+theorem charset_witness (sfx : Str → Str) :
+    ¬ IdOk "my fn".toList ∧ EdgeOk "my fn".toList ∧ validQualified (v2Key kz sfx "my fn".toList) = false := by
+  have e : v2Key kz sfx "my fn".toList = "kopf.zalando.org/my fn".toList := by
     simp [v2Key]; decide
   refine ⟨by decide, by decide, ?_⟩
   rw [e]; decide
